@@ -8,7 +8,11 @@ from harness.framework import Suite
 
 PID = "C12"
 TRANSLATE = True
-LEAN_MODS = ["SwcVerif.Props.C12"]
+# regenerated on every run from transforms/geometry.py (the transform classes: constructors, __call__, apply, TranslateOrigin.transform), utils/transforms.py
+# (the matrix builders, a second time, through the imperative translator), core/swc.py (xyz / xyzw) and transforms/base.py (Transforms.__call__)
+TRANSLATE_ALGO = ["AlgoAffine"]
+DRIVER_FILES = ["SwcVerif/Model/AlgoRunAffine.lean", "SwcVerif/Model/PyAffine.lean"]
+LEAN_MODS = ["SwcVerif.Props.C12", "SwcVerif.Props.C12Gen"]
 THEOREMS = [
     "C12.translate_moves", "C12.translate_origin_root", "C12.scale_origin", "C12.scale_about_root",
     "C12.scale_root_fixed", "C12.rotate_root_fixed", "C12.rotate_axis_isometry", "C12.rotate_axis_isometry_origin",
@@ -297,6 +301,33 @@ def _transform(kind, a, center, num="float", mdtype="float64"):
     return Rotate(np.array(a[:3]), a[3], **kw)
 
 
+def _num(v):
+    return repr(float(v))
+
+
+def _tree_args(t):
+    """the columns of a tree case as protocol arguments (coordinates / radii are float32 values, written exactly)"""
+    f32 = lambda vs: ",".join(_num(np.float32(v)) for v in vs)
+    return (f"pids={','.join(str(p) for p in t['pids'])} types={','.join(str(p) for p in t['types'])} "
+            f"xs={f32(p[0] for p in t['xyz'])} ys={f32(p[1] for p in t['xyz'])} zs={f32(p[2] for p in t['xyz'])} rs={f32(t['r'])}")
+
+
+def _gen_step(kind, a, center):
+    """`kind/a,…/center` of the driver ops gaffine / gpipe; the user matrices are written as their 16 entries"""
+    if kind == "affine":
+        kind, a = "affine_m", [a[0], 0, 0, a[3], 0, a[1], 0, a[4], 0, 0, a[2], a[5], 0, 0, 0, 1]
+    elif kind == "affine_h":
+        w = a[6]
+        kind, a = "affine_m", [w * v for v in [a[0], 0, 0, a[3], 0, a[1], 0, a[4], 0, 0, a[2], a[5], 0, 0, 0, 1]]
+    elif kind == "affine_m":
+        a = list(a) + [0, 0, 0, 1]
+    return kind, ",".join(_num(v) for v in a), center
+
+
+def _tree_out(xyz, ids, pids, types, r):
+    return [float(v) for p in xyz for v in p] + [float(v) for v in list(ids) + list(pids) + list(types)] + [float(v) for v in r]
+
+
 class Affine(Suite):
     name = "c12.affine"
 
@@ -407,7 +438,7 @@ class Affine(Suite):
 
     def lines(self, case, res):
         if "exc" in res or case["kind"] in ("translate_origin", "affine", "affine_h", "affine_m"):
-            return []
+            return self.gen_lines(case, res)
         t = case["tree"]
         root = t["xyz"][0]
         out = []
@@ -417,7 +448,17 @@ class Affine(Suite):
             line = (f"affine kind={case['kind']} a={','.join(repr(float(v)) for v in case['a'])} center={self._center(case)} "
                     f"root={','.join(repr(float(v)) for v in root)} p={','.join(repr(float(v)) for v in p)}")
             out.append((line, {"approx": res["xyz"][i], "rtol": 2e-5, "atol": 2e-3}))
-        return out
+        return out + self.gen_lines(case, res)
+
+    def gen_lines(self, case, res):
+        """the GENERATED class (constructor with this centre argument — `default` = left out —, then `__call__` / `apply`) run on the whole tree
+        by the driver: every coordinate, and ids / parents / types / radii"""
+        if "exc" in res or case.get("names"):
+            return []
+        t = case["tree"]
+        kind, a, center = _gen_step(case["kind"], case["a"], case["center"])
+        return [(f"gaffine kind={kind} a={a} center={center} {_tree_args(t)}",
+                 {"approx": _tree_out(res["xyz"], res["id"], res["pid"], res["type"], res["r"]), "rtol": 2e-5, "atol": 2e-3})]
 
     def oracle(self, case, res):
         try:
@@ -562,6 +603,17 @@ class Pipeline(Suite):
                 cur = tr(cur)
             res["back"] = cur.xyz().astype(np.float64).tolist()
         return res
+
+    def lines(self, case, res):
+        """the GENERATED `Transforms.__call__` on the generated classes of the steps, run on the whole tree by the driver (the real run applies
+        the steps one by one: the composition is what `Transforms(*steps)` computes)"""
+        if "exc" in res or not res.get("after"):
+            return []
+        t = case["tree"]
+        steps = ";".join("/".join(_gen_step(s["kind"], s["a"], s["center"])) for s in case["steps"])
+        big = max([1.0] + [abs(v) for g in res["after"] for p in g for v in p])
+        return [(f"gpipe steps={steps} {_tree_args(t)}",
+                 {"approx": _tree_out(res["after"][-1], res["id"], res["pid"], res["type"], res["r"]), "rtol": 1e-4, "atol": 5e-3 + 1e-5 * big})]
 
     def oracle(self, case, res):
         try:
